@@ -273,6 +273,27 @@ fn w_n1_threshold_change_mid_ingestion_traps() {
     let _ = with_state_mut(state::ingest_stable_blocks_into_utxoset);
 }
 
+
+// F10 (second entry point): the same threshold change delivered as the post_upgrade config argument
+// while the ingestion of a stable block is paused.
+#[test]
+#[should_panic]
+fn w_f10b_threshold_change_by_upgrade_arg_mid_ingestion_traps() {
+    init(1);
+    let network = Network::Regtest;
+    let g = genesis_block(network);
+    let b1 = BlockBuilder::with_prev_header(g.header()).build();
+    insert(&b1);
+    crate::runtime::set_performance_counter_step(2_000_000_000);
+    let r = with_state_mut(state::ingest_stable_blocks_into_utxoset);
+    assert_eq!(r, crate::types::Slicing::Paused(()));
+    crate::runtime::set_performance_counter_step(0);
+    crate::runtime::performance_counter_reset();
+    crate::pre_upgrade();
+    crate::post_upgrade(Some(ic_btc_interface::SetConfigRequest { stability_threshold: Some(100), ..Default::default() }));
+    let _ = with_state_mut(state::ingest_stable_blocks_into_utxoset);
+}
+
 // ---------------------------------------------------------------------------
 // F11 was run as a separate scratch module; it needs these extra imports:
 //   use crate::{runtime::{self, GetSuccessorsReply}, types::{GetSuccessorsPartialResponse, GetSuccessorsResponse}};
